@@ -90,7 +90,7 @@ Proof.
         by (pose proof (skipn_le n rest); cbn [length] in *; lia).
       assert (Hs2 : length (skipn n rest ++ d) < k2).
       { rewrite app_length. pose proof (skipn_le n rest).
-        cbn [length] in H2. rewrite app_length in H2. lia. }
+        rewrite app_length in H2. cbn [length] in H2. lia. }
       rewrite (IH _ d k2 Hs Hs2).
       destruct (loop k (skipn n rest)) as [ms0 b| | |]; cbn [continue_with]; try reflexivity.
       destruct (utcp (b ++ d)); reflexivity.
